@@ -216,6 +216,48 @@ _TOKENS = ['h1', 'handle_2', 'x.y-z', 'ä', 'T0']
 _XSD_REQ = None
 
 
+_XSD_IMPLIED = None
+
+
+def xsd_implied(tab: Table):
+    """class index -> {attribute name: implied / default lexical value documented by the bundled schemas}"""
+    global _XSD_IMPLIED
+    if _XSD_IMPLIED is None:
+        import xsdtable
+        X = xsdtable.XsdTable()
+        bind, _ = xsd_bind(tab, X)
+        _XSD_IMPLIED = {ci: {a[0]: a[3] for a in X.flatten(t)[1] if a[3] is not None} for ci, t in bind.items()}
+    return _XSD_IMPLIED
+
+
+def xsd_implied_problems(tab: Table, obj, path=''):
+    """an attribute that is absent in the XML must read (through the public attribute) as the implied value the XSD
+    documents for it; recursively. Returns [(path, class key, member, public value, XSD implied lexical)]."""
+    res = []
+    ci = tab.index.get(type(obj))
+    if ci is None:
+        return res
+    imp = xsd_implied(tab).get(ci, {})
+    for (name, p), e in zip(tab.props[ci], tab.entries[ci]['props']):
+        stored = sh.actual(obj, p)
+        here = f'{path}.{name}' if path else name
+        if e['kind'] == 'attr' and stored is None and e['xml'] in imp:
+            try:
+                pub = getattr(obj, name)
+                lex = None if pub is None else (clark(pub) if e['conv'] == 'QName' else p._converter.to_xml(pub))
+            except Exception as ex:  # noqa: BLE001
+                lex = f'<{type(ex).__name__}>'
+            if lex != imp[e['xml']]:
+                res.append((here, tab.keys[ci], name, lex, imp[e['xml']]))
+        elif sh.is_value_object(stored):
+            res += xsd_implied_problems(tab, stored, here)
+        elif isinstance(stored, list):
+            for i, item in enumerate(stored):
+                if sh.is_value_object(item):
+                    res += xsd_implied_problems(tab, item, f'{here}[{i}]')
+    return res
+
+
 def xsd_requirements(tab: Table):
     """class index -> {xml name: minOccurs (elements) / 1 (required attributes)} from the bundled schemas"""
     global _XSD_REQ
@@ -944,8 +986,8 @@ def xsd_bind(tab: Table, X):
 
 
 def lexical_of_default(p, e):
-    """lexical form of the member's implied (or default) value"""
-    v = p._implied_py_value if p._implied_py_value is not None else p._default_py_value
+    """lexical form of the member's implied value"""
+    v = p._implied_py_value      # what an absent attribute reads as (a default_py_value only initialises new instances)
     if v is None:
         return None
     try:
@@ -1337,6 +1379,10 @@ def oracle(ctx, tab: Table, obj, case):
             ctx.fail(f'public-read:{owner}.{member}', f'{key}: reading {where} through the attribute gives {pub!r}; the XML / the stored value says '
                      f'{stored!r} (expected {expected!r}: the stored value when present, the implied value when absent)',
                      {**case, 'xml': text.decode()})
+            ok = False
+        for where, ckey, member, lex, expected in xsd_implied_problems(tab, back)[:3]:
+            ctx.fail(f'xsd-implied:{ckey}.{member}', f'{key}: {where} is absent in the XML and reads as {lex!r}; the bundled XSD documents the '
+                     f'implied value {expected!r}', {**case, 'xml': text.decode()})
             ok = False
         got = canon(back)
         if got != want:
